@@ -20,6 +20,7 @@ import (
 	"os"
 	"os/exec"
 	"reflect"
+	"regexp"
 	"strings"
 	"sync"
 	"time"
@@ -80,7 +81,11 @@ type child struct {
 }
 
 func startChild(addr string, maxPool int) (*child, error) {
-	cmd := exec.Command(os.Args[0], "serve", addr, fmt.Sprint(maxPool))
+	bin := os.Args[0]
+	if b := os.Getenv("VERIF_C16_CHILD"); b != "" { // e.g. the same binary built with -race (thorough tier)
+		bin = b
+	}
+	cmd := exec.Command(bin, "serve", addr, fmt.Sprint(maxPool))
 	in, _ := cmd.StdinPipe()
 	out, _ := cmd.StdoutPipe()
 	eb := &strings.Builder{}
@@ -388,6 +393,61 @@ func reloginScenario(g *hx.Gen, s *hx.Server) string {
 	return fmt.Sprintf("%s [drop variant %d]", last, how)
 }
 
+func raceReports(stderr string) []string {
+	var out []string
+	parts := strings.Split(stderr, "WARNING: DATA RACE")
+	for _, p := range parts[1:] {
+		if i := strings.Index(p, "=================="); i >= 0 {
+			p = p[:i]
+		}
+		out = append(out, p)
+	}
+	return out
+}
+
+// lockSites: (type, function, line) of every access site of a listed shared table, read from today's
+// coq/gen/GenLocks.v (path in -extra); a race whose top frame is one of these sites is a race ON a listed table.
+func lockSites(path string) map[string]string {
+	out := map[string]string{}
+	b, err := os.ReadFile(path)
+	if err != nil {
+		return out
+	}
+	re := regexp.MustCompile(`\("([^"]+)", "([^"]+)", "([^"]+)", (\d+), (true|false), "[a-z]+"\)`)
+	for _, m := range re.FindAllStringSubmatch(string(b), -1) {
+		out[m[1]+"|"+m[3]+"|"+m[4]] = m[1] + "." + m[2]
+	}
+	return out
+}
+
+var frameRe = regexp.MustCompile(`github\.com/fatedier/frp/([A-Za-z0-9_/]+)\.\(\*?([A-Za-z0-9_]+)\)\.([A-Za-z0-9_]+)`)
+var lineRe = regexp.MustCompile(`\.go:(\d+)`)
+
+// sharedTableType: the listed table (type.field) accessed by the TOP frame of either racing access, or "".
+func sharedTableType(report string, sites map[string]string) string {
+	lines := strings.Split(report, "\n")
+	for i, l := range lines {
+		if (strings.Contains(l, "ead at") || strings.Contains(l, "rite at")) && i+2 < len(lines) {
+			f := frameRe.FindStringSubmatch(lines[i+1])
+			ln := lineRe.FindStringSubmatch(lines[i+2])
+			if f != nil && ln != nil {
+				if t, ok := sites[f[1]+"."+f[2]+"|"+f[3]+"|"+ln[1]]; ok {
+					return t
+				}
+			}
+		}
+	}
+	return ""
+}
+
+func firstLines(s string, n int) string {
+	ls := strings.Split(strings.TrimSpace(s), "\n")
+	if len(ls) > n {
+		ls = ls[:n]
+	}
+	return strings.Join(ls, "\n")
+}
+
 func wsDial(s *hx.Server) (net.Conn, error) {
 	addr := fmt.Sprintf("%s:%d", s.Addr, s.Port)
 	raw, err := net.DialTimeout("tcp", addr, 2*time.Second)
@@ -482,6 +542,7 @@ func runBarrage(cfg *hx.RunCfg) error {
 	dist := map[string]int{}
 	distinct := map[string]bool{}
 	samples := []string{}
+	_ = s
 	record := func(kind, typ, detail string, alive, wd bool) {
 		cs := fmt.Sprintf("CBarrage %s %s %s %s", hx.Str(kind), hx.Str(typ), hx.Bool(alive), hx.Bool(wd))
 		cf.Cases = append(cf.Cases, cs)
@@ -675,6 +736,24 @@ func runBarrage(cfg *hx.RunCfg) error {
 	}
 	time.Sleep(100 * time.Millisecond)
 	crashed("background-traffic", "concurrent xtcp/stcp/group registration, closure, visitor pre-checks")
+	// race detector reports of a -race child (thorough tier): a race whose stack touches one of the shared
+	// tables' owner types is a violation; the others are listed in the stats
+	c.stop()
+	races := raceReports(c.stderr())
+	sites := lockSites(cfg.Extra)
+	other := []string{}
+	for _, r := range races {
+		if t := sharedTableType(r, sites); t != "" {
+			fails = append(fails, map[string]any{"key": "data-race:" + t, "what": "race detector: unsynchronised access in " + t, "case": firstLines(r, 14)})
+		} else {
+			other = append(other, firstLines(r, 8))
+		}
+	}
+	cfg.St["race_reports"] = len(races)
+	if len(other) > 6 {
+		other = other[:6]
+	}
+	cfg.St["race_reports_outside_listed_tables"] = other
 	cfg.St["cases"] = len(cf.Cases)
 	cfg.St["distinct_nontrivial"] = len(distinct)
 	cfg.St["distribution"] = dist
